@@ -33,6 +33,7 @@ RULE = (
     "quadrature with a quadratic energy) x law x mesh x initial state and velocity x dt in 0.02..0.4 x 20-100 steps, "
     "free or clamped on one face; non-trivial = converged run with E0>0 and a strain-energy exchange > 1e-4 of the "
     "energy scale. distinct = sha1 of the serialised case."
+    ' energy_units: enumerated free motions with the adaptive path quadrature in three unit systems (moduli and density x 1e-12, 1, 1e6).'
 )
 ASSUMPTIONS = [
     "jax (CPU, float64) present for the AutoDiff law; kinematics of the oracle (F, E, Kelvin-Mandel vectors) written "
